@@ -312,6 +312,9 @@ int main(int argc, char **argv) {
   // variant 1 (class-type scalar, guarded function-local static): pairs involving isZero, copies and destruction
   for (int a : {6, 1, 7, 2, 5})
     for (int b : {6, 1, 7, 3, 4}) progs.push_back({1, {{a}, {b}}});
+  // ... and every operation against itself (two threads inside the same kernel: scratch storage selected for "heavy" scalars)
+  for (int a = 0; a < NOPS; a++)
+    if (a != 6 && a != 1 && a != 7) progs.push_back({1, {{a}, {a}}});
   // three threads
   std::vector<std::vector<int>> triples;
   if (th) {
